@@ -2,6 +2,7 @@
 // Shape I: exhaustive enumeration of (seed, message) spaces against ONE generic
 // bit-at-a-time polynomial-division reference, on exactly-sized ASan heap copies.
 #include "mc.hpp"
+#include "guard.hpp"
 #include <cstdlib>
 #include <cstring>
 #include <igris/util/crc.h>
@@ -345,6 +346,25 @@ MC_INIT
         if (len >= 2 && align)
             mc::nontrivial();
         check_all(m, len, align, 0x5A, "aligned");
+        // the same message in READ-ONLY memory (a const table, a string literal in flash), flush against an
+        // inaccessible page: a routine that patches its input and restores it afterwards faults here
+        if (align == 0)
+        {
+            guard::Region r(len);
+            if (len)
+                memcpy(r.p, m, len);
+            mprotect(r.base + 4096, r.maplen - 2 * 4096, PROT_READ);
+            mc::crash_context("C17.readonly_input.memory");
+            uint8_t a = igris_crc8(r.p, (uint8_t)len, 0x5A), b = igris_crc8_table(r.p, (uint8_t)len, 0x5A), c7 = igris_mmc_crc7(r.p, (uint8_t)len), s = 0x5A;
+            for (int i = 0; i < len; i++)
+                igris_strmcrc8(&s, (char)r.p[i]);
+            uint16_t c16 = igris_crc16(r.p, (uint16_t)len, 0x5A5A);
+            uint32_t c32 = igris_crc32(r.p, (uint32_t)len, 0x5A5A5A5Au);
+            mc::crash_context("C17.harness");
+            if (a != ref_dallas(m, len, 0x5A) || b != a || c7 != ref_crc7(m, len) || s != ref_strm8(m, len, 0x5A) || c16 != ref_crc16(m, len, 0x5A5A) ||
+                c32 != ref_crc32(m, len, 0x5A5A5A5Au))
+                mc::violation("C17.readonly_input.value", "len=%d pattern=%d: a CRC of a message held in read-only memory differs from the reference", len, pat);
+        }
     });
     // The value depends on the BYTES, not on the argument values: the same (pointer, length, seed) after the buffer
     // was patched in place must give the CRC of the new contents.  Both calls and the store between them sit in one
